@@ -2,19 +2,19 @@
 LEVEL = "model_checking"
 RULE = ("P1: for every integer series of length 3..LMax (quick 5, thorough 7) over -1..1 TLC checks in exact arithmetic"
         " that the biased autocovariance is even in the lag, bounded by its value at lag 0 (|acf| <= 1 = acf(0)), shift"
-        " invariant, that differencing inverts cumulative summation, and that the closed-form Yule-Walker coefficients "
-        "of order 1 and 2 satisfy the Yule-Walker equations; for dyadic coefficient sets of order 1..3 on integer "
-        "histories the forecast recursion as coded (last p centred values, reversed coefficients, intercept added at "
-        "the end) equals mean + recursion on the centred history and is shift equivariant; P2 (forecast cases of order "
-        "1, 2, 3, 7, 8, 9, 16): every series is replayed at offsets 0, 1e3, 1e6: acovf and acf at every lag "
-        "-(n-1)..(n-1), bitwise evenness, AR::fit of order 1 and 2 on a fresh AND on a previously fitted object "
-        "(coefficients un-reversed, intercept), difference(cumsum); AR::predict with given dyadic coefficients for "
-        "horizons 1..H incl. shifted data; every second series also times 2^-45 and 2^40 (acovf scales with s^2, acf "
-        "and Yule-Walker coefficients do not move, the intercept scales with s); lags at and beyond the length of the "
-        "series give 0; P3 (observations, validated by TLC Trace_TimeSeries): simulated stationary AR(1..3) series of "
-        "length 60..500 at offsets 0 / 50 / 1e6, fitted with orders 1..8: Yule-Walker residual, intercept = mean, shift"
-        " equivariance of 20-step forecasts, 1000-step forecast within 2^-20 of the mean. Case class = (function, "
-        "offset class / order, fresh or refit).")
+        " invariant, that differencing inverts cumulative summation and shortens by one at every pass down to the empty"
+        " series (replayed pass by pass), and that the closed-form Yule-Walker coefficients of order 1 and 2 satisfy "
+        "the Yule-Walker equations; for dyadic coefficient sets of order 1..3 on integer histories the forecast "
+        "recursion as coded (last p centred values, reversed coefficients, intercept added at the end) equals mean + "
+        "recursion on the centred history and is shift equivariant; P2 (forecast cases of order 1, 2, 3, 7, 8, 9, 16): "
+        "every series is replayed at offsets 0, 1e3, 1e6: acovf and acf at every lag -(n-1)..(n-1), bitwise evenness, "
+        "AR::fit of order 1 and 2 on a fresh AND on a previously fitted object (coefficients un-reversed, intercept), "
+        "difference(cumsum); AR::predict with given dyadic coefficients for horizons 1..H incl. shifted data; every "
+        "second series also times 2^-45 and 2^40 (acovf scales with s^2, acf and Yule-Walker coefficients do not move, "
+        "the intercept scales with s); lags at and beyond the length of the series give 0; P3 (observations, validated "
+        "by TLC Trace_TimeSeries): simulated stationary AR(1..3) series of length 60..500 at offsets 0 / 50 / 1e6, "
+        "fitted with orders 1..8: Yule-Walker residual, intercept = mean, shift equivariance of 20-step forecasts, "
+        "1000-step forecast within 2^-20 of the mean. Case class = (function, offset class / order, fresh or refit).")
 ASSUMPTIONS = ["exact oracle for orders 1 and 2 on short integer series; orders 3..8 only through the residual observation whose autocorrelations the harness computes from the definition",
                "predict_one (a raw dot-product helper) is not judged: the property speaks about forecasts"]
 EXHAUSTIVE = True
